@@ -10,13 +10,15 @@ def run(ck):
     run_cluster_check(
         ck, "Properties/C06.v", "c06", nontrivial,
         rule="cases = for 2, 3 and 4 nodes: every consistency level (8) x every operation kind (put, put_many, del, del_many) x "
-             "every subset of the other nodes unreachable (exhaustive, 1 440 schedules), the named schedules, and random schedules "
-             "mixing levels with link changes, batches, exchanges and restarts. The real ReplicatedStoreHandle call is made with "
+             "every subset of the other nodes unreachable, then the links restored and the batching interval of the REAL task "
+             "distributor elapsed (exhaustive, 1 440 schedules), the named schedules, random distributor schedules (operations, link "
+             "changes, restarts, interval flushes) and random schedules mixing levels with link changes, batches, exchanges and restarts. The real ReplicatedStoreHandle call is made with "
              "the real selector; its result, the issuer's and every replica's set and store are compared with the model. Oracle on "
              "the implementation: Ok => the mutation or a newer one is readable from storage on the issuer and on at least the "
              "required number of distinct other nodes; ConsistencyFailure => reports exactly (acknowledged, selected) with "
              "acknowledged < selected, the local write is in place; NotEnoughNodes only when too few other nodes exist and then "
-             "nothing was written; at quiescence all nodes hold the last-writer-wins documents (so a failed write was still "
+             "nothing was written; after every interval flush every reachable member holds everything registered with the issuer's "
+             "distributor since its last flush, whatever the result of the call was; at quiescence all nodes hold the last-writer-wins documents (so a failed write was still "
              "replicated). non-trivial = distinct schedules with a consistency failure or a not-enough-nodes refusal",
         assumptions=[
             "the selection (distinct, without the issuer, within the membership, large enough) is C15's subject and a premise here",
